@@ -72,19 +72,13 @@ Theorem tables_durable :
   /\ In t (r_tabs (recover Kill (at_pos os i n))).
 Proof. exact tables_durable_l. Qed.
 
-(* where the model does not keep the property (known findings, reproduced on the real code) *)
-Theorem power_unlogged_refuted :
+(* where the model does not keep the page-level property: a page written behind the dirty tracker's back
+   (here the table header, whose row count an INSERT updates) is stale after a power loss *)
+Theorem power_header_stale_refuted :
   exists os i, wf_run init os = true /\ existsb is_api_ckpt os = false /\ in_txn (run init (firstn i os)) = false
-    /\ vol (run init (firstn i os)) (1, 1) = Some 2
-    /\ r_pages (recover Power (run init (firstn i os))) (1, 1) = None.
-Proof. exact power_unlogged_refuted_l. Qed.
-
-Theorem power_apickpt_refuted :
-  exists os i, wf_run init os = true /\ in_txn (run init (firstn i os)) = false
-    /\ kmem (1, 2) (g_unl (ghost_run init ghost0 (firstn i os))) = false
-    /\ vol (run init (firstn i os)) (1, 2) = Some 6
-    /\ r_pages (recover Power (run init (firstn i os))) (1, 2) = None.
-Proof. exact power_apickpt_refuted_l. Qed.
+    /\ vol (run init (firstn i os)) (1, 0) = Some 4
+    /\ r_pages (recover Power (run init (firstn i os))) (1, 0) = Some 1.
+Proof. exact power_header_stale_refuted_l. Qed.
 
 (* the recovery the theorems speak about is the one of a database whose table ids are unique
    (recover_sh []); with a user table carrying a system table's id the frames are diverted: *)
@@ -95,7 +89,7 @@ Proof. exact recover_sh_nil_l. Qed.
 Theorem power_id_collision_refuted :
   exists os i, wf_run init os = true /\ existsb is_api_ckpt os = false /\ in_txn (run init (firstn i os)) = false
     /\ vol (run init (firstn i os)) (1, 1) = Some 5
-    /\ r_pages (recover_sh [1] Power (run init (firstn i os))) (1, 1) = None
+    /\ r_pages (recover_sh [1] Power (run init (firstn i os))) (1, 1) = Some 2
     /\ r_pages (recover Power (run init (firstn i os))) (1, 1) = Some 5.
 Proof. exact power_id_collision_refuted_l. Qed.
 
@@ -133,10 +127,9 @@ Check power_quiet_exact : forall os, wf_run init os = true -> forall i n, exists
 Check ack_durable_power : forall os, wf_run init os = true -> forall i, existsb is_api_ckpt (firstn i os) = false -> in_txn (run init (firstn i os)) = false -> forall k, kmem k (g_unl (ghost_run init ghost0 (firstn i os))) = false -> r_pages (recover Power (run init (firstn i os))) k = vol (run init (firstn i os)) k.
 Check kill_always_opens : forall os i n, r_open (recover Kill (at_pos os i n)) = true.
 Check tables_durable : forall os i n t, In t (created (firstn i os)) -> r_open (recover Power (at_pos os i n)) = true /\ In t (r_tabs (recover Power (at_pos os i n))) /\ r_open (recover Kill (at_pos os i n)) = true /\ In t (r_tabs (recover Kill (at_pos os i n))).
-Check power_unlogged_refuted : exists os i, wf_run init os = true /\ existsb is_api_ckpt os = false /\ in_txn (run init (firstn i os)) = false /\ vol (run init (firstn i os)) (1, 1) = Some 2 /\ r_pages (recover Power (run init (firstn i os))) (1, 1) = None.
-Check power_apickpt_refuted : exists os i, wf_run init os = true /\ in_txn (run init (firstn i os)) = false /\ kmem (1, 2) (g_unl (ghost_run init ghost0 (firstn i os))) = false /\ vol (run init (firstn i os)) (1, 2) = Some 6 /\ r_pages (recover Power (run init (firstn i os))) (1, 2) = None.
+Check power_header_stale_refuted : exists os i, wf_run init os = true /\ existsb is_api_ckpt os = false /\ in_txn (run init (firstn i os)) = false /\ vol (run init (firstn i os)) (1, 0) = Some 4 /\ r_pages (recover Power (run init (firstn i os))) (1, 0) = Some 1.
 Check recover_unique_ids : forall m s, recover_sh [] m s = recover m s.
-Check power_id_collision_refuted : exists os i, wf_run init os = true /\ existsb is_api_ckpt os = false /\ in_txn (run init (firstn i os)) = false /\ vol (run init (firstn i os)) (1, 1) = Some 5 /\ r_pages (recover_sh [1] Power (run init (firstn i os))) (1, 1) = None /\ r_pages (recover Power (run init (firstn i os))) (1, 1) = Some 5.
+Check power_id_collision_refuted : exists os i, wf_run init os = true /\ existsb is_api_ckpt os = false /\ in_txn (run init (firstn i os)) = false /\ vol (run init (firstn i os)) (1, 1) = Some 5 /\ r_pages (recover_sh [1] Power (run init (firstn i os))) (1, 1) = Some 2 /\ r_pages (recover Power (run init (firstn i os))) (1, 1) = Some 5.
 
 Print Assumptions kill_quiet_exact.
 Print Assumptions ack_quiet.
@@ -146,7 +139,6 @@ Print Assumptions power_quiet_exact.
 Print Assumptions ack_durable_power.
 Print Assumptions kill_always_opens.
 Print Assumptions tables_durable.
-Print Assumptions power_unlogged_refuted.
-Print Assumptions power_apickpt_refuted.
+Print Assumptions power_header_stale_refuted.
 Print Assumptions recover_unique_ids.
 Print Assumptions power_id_collision_refuted.
